@@ -12,7 +12,7 @@ theorem decodeVal_idem (b b' : Bool) : ∀ (t : VTy) (j c : Json), decodeVal b t
   refine decodeVal.induct b
     (motive1 := fun t j => ∀ c, decodeVal b t j = some c → decodeVal b' t c = some c)
     (motive2 := fun t xs => ∀ cs, decodeVals b t xs = some cs → decodeVals b' t cs = some cs)
-    ?_ ?_ ?_ ?_ ?_ ?_ ?_ ?_ ?_ ?_ ?_ ?_ ?_ ?_ ?_ ?_ t j
+    ?_ ?_ ?_ ?_ ?_ ?_ ?_ ?_ ?_ ?_ ?_ ?_ ?_ ?_ ?_ ?_ ?_ ?_ t j
   · intro bits s c h
     simp only [decodeVal] at h ⊢
     cases hn : canonNat s with
@@ -44,8 +44,8 @@ theorem decodeVal_idem (b b' : Bool) : ∀ (t : VTy) (j c : Json), decodeVal b t
       · cases h; simp [decodeVal, hn, *]
       · cases h
   · intro ms c h; simp only [decodeVal] at h; cases h; simp [decodeVal]
-  · intro hv c h; simp only [decodeVal, hv, if_true] at h; cases h; simp [decodeVal]
-  · intro hv c h; simp [decodeVal, hv] at h
+  · intro xs hv c h; simp only [decodeVal, hv, if_true] at h; cases h; simp [decodeVal]
+  · intro xs hv c h; simp [decodeVal, hv] at h
   · intro t c h; simp only [decodeVal] at h; cases h; simp [decodeVal]
   · intro t j hj ih c h
     have e : decodeVal b t.option j = decodeVal b t j := by
@@ -76,13 +76,26 @@ theorem decodeVal_idem (b b' : Bool) : ∀ (t : VTy) (j c : Json), decodeVal b t
         simp [hx, hy] at h
         cases h
         simp [decodeVal, iha x' hx, ihb y' hy]
-  · intro t j h1 h2 h3 h4 h5 h6 h7 h8 h9 h10 h11 h12 c h
+  · intro a b2 x y hd tl hv iha ihb c h
+    subst hv
+    simp only [decodeVal, if_true] at h
+    cases hx : decodeVal true a x with
+    | none => simp [hx] at h
+    | some x' =>
+      cases hy : decodeVal true b2 y with
+      | none => simp [hx, hy] at h
+      | some y' =>
+        simp [hx, hy] at h
+        cases h
+        simp [decodeVal, iha x' hx, ihb y' hy]
+  · intro a b2 x y hd tl hv c h; simp [decodeVal, hv] at h
+  · intro t j h1 h2 h3 h4 h5 h6 h7 h8 h9 h10 h11 h12 h13 c h
     exfalso
     cases t <;> cases j <;>
       first
       | exact h1 _ _ rfl rfl | exact h2 _ _ rfl rfl | exact h3 _ rfl rfl
       | exact h4 _ rfl rfl | exact h5 _ rfl rfl | exact h6 _ rfl rfl
-      | exact h7 _ rfl rfl | exact h9 _ rfl rfl | exact h10 _ rfl
+      | exact h7 _ rfl rfl | exact h8 _ rfl rfl | exact h9 _ rfl rfl | exact h10 _ rfl
       | exact h11 _ _ rfl rfl
       | (simp [decodeVal] at h; done)
       | skip
